@@ -45,7 +45,7 @@ var propSpecs = map[string]PropSpec{
 		Explanation: "Partial, by contracts on the real code of package io, which is loaded with a mechanical stub of its cgo dependency gonum.org/v1/hdf5 (regenerated from the module source on every run: all declarations and signatures kept; function bodies, C types and C constant values dropped; libhdf5 itself is absent from the sandbox). Decided: (1) selection arithmetic for all selections and extents - sliceSize returns exactly the number of indices start + k*step below min(stop, extent) (lemma C08.lemma-selcount-exact), makeHyperslab returns offset = start, stride = step, block = 1 and that count per selected dimension and the whole extent for nil dimensions; (2) argument wiring of every data-carrying library call - loadSubset selects exactly the hyperslab of makeHyperslab, gives the memory dataspace and the result array the shape count[.] (loop invariant over the shape rewrite), reads memory space against file selection; WriteSlice selects offset loc, stride 1, count 1, block = shape of the data and a memory space of that shape; Write creates or opens the dataset with the data's shape; createDataset creates the dataspace with the requested shape; (3) lock typestate - ghost variable hdf5lock (0 free, 1 shared, 2 exclusive): every call into gonum hdf5 on every path, including deferred Close calls, happens with the lock held, calls that create or write objects in a file (CreateFile, CreateGroup, CreateDataset*, Write, WriteSubset) with the lock held exclusively, and every exported method releases it on every return path. Not decided: anything libhdf5 does with those arguments (round trip of values, element types, that an existing dataset is left untouched), which is exactly what cannot be run or replayed here.",
 		NotCovered: []string{"behaviour of libhdf5 / gonum hdf5 (round-trip of values and element types, dataset creation semantics): the library is absent; its calls are external (A-EXTERNAL, A-HDF5: a call that reports no error returns non-nil handles)", "that creating an existing dataset leaves its contents unchanged and refuses a different shape (control flow of openOrCreateDataset is not under a labelled contract)", "error handling and nil handles (openWriteOrCreate can return a nil file without an error when the file exists but cannot be opened)", "the bodies of the four lock wrappers (trusted: sync.RWMutex)", "replay: package io cannot be built or run here; witnesses run on the two pure helpers extracted verbatim (tools/run_witness_io.sh)"}},
 	"C10": {ID: "C10", Level: "proof", Patterns: modelPkgs,
-		NotCovered: []string{"Sacramento: store bounds, and the composition of the proved segment and increment conservation identities into a whole-run water balance (unit-hydrograph buffer, losses ssout/sarva/side and the ADIMP area are not tied together)", "GR4J unit-hydrograph mass closure (exact balance with zero exchange and zero PET)"}},
+		NotCovered: []string{"Sacramento: store bounds, and the composition of the proved segment and increment conservation identities into a whole-run water balance (unit-hydrograph buffer, losses ssout/sarva/side and the ADIMP area are not tied together)", "GR4J: non-negativity of the unit-hydrograph buffers (the exact daily balance is proved for days whose routed ordinates are non-negative; that the buffers never go negative needs monotonicity of the S-curves, i.e. of pow, which is uninterpreted)"}},
 	"C11": {ID: "C11", Level: "proof", Patterns: modelPkgs,
 		NotCovered: []string{"storage routing with bias != 0 or routing power != 1 (sub-step iteration)", "storage-discharge relation within the solver tolerance on the root-finder exit of calcOutflow (FindRoot may stop unconverged after maxIterations; the relation residual is then whatever the last trial gave)"}},
 	"C12": {ID: "C12", Level: "proof", Patterns: modelPkgs},
@@ -54,7 +54,7 @@ var propSpecs = map[string]PropSpec{
 	"C16": {ID: "C16", Level: "proof", Patterns: modelPkgs},
 	"C17": {ID: "C17", Level: "other", Patterns: []string{"./sim/...", "./io/json/...", "./data"},
 		Explanation: "Partial, by contracts on the real runner code (sim/single.go, io/json/json.go): request assembly is proved exact - every parameter handed to the model is the first value of that name in the request or else the description's default, every supplied input series is row k of the input array (all values, all lengths), missing inputs are zero rows, all input series must have one length, the parameter matrix is the uniform one-column matrix - and no statement of Initialise, RunSingleModelJSON, encodeResults and JsonSafeArray can panic (index, slice, nil, division obligations; the deferred encoder runs on every return path), given the assumed interface contracts of the catalogued model (Description pure, InitialiseStates a fresh one-row matrix, Run's preconditions established by the runner). Not decided here: the text written to the output (encoding/json and fmt are external: that exactly one valid document is produced, and the strings chosen for NaN/Inf), the nesting of the interface{} tree built by JsonSafeArray beyond its length per level, and the equality of the run with a direct Run (the runner calls the same Run on the assembled arrays; C04 covers Run).",
-		NotCovered: []string{"bytes produced by encoding/json and fmt (valid JSON, NaN/+Inf/-Inf strings)", "contents of the interface{} tree returned by JsonSafeArray (only the length per level)", "flat-index safety of element reads through the over-long views JsonSafeArray builds (views unchecked)", "cmd/ow-single main (flag parsing, stdin/stdout)", "panics inside the model's own Run (the per-cell goroutine): e.g. {\"Name\":\"GR4J\"} or InstreamDissolvedNutrientDecay with no parameters and no inputs run with all-default parameters and crash inside Run, outside the runner's recover; Run's preconditions are established by the runner only as far as array shapes go"}},
+		NotCovered: []string{"bytes produced by encoding/json and fmt (valid JSON, NaN/+Inf/-Inf strings)", "contents of the interface{} tree returned by JsonSafeArray (only the length per level)", "flat-index safety of element reads through the over-long views JsonSafeArray builds (views unchecked)", "cmd/ow-single main (flag parsing, stdin/stdout)", "what a model does with in-range parameters that its own contract does not cover (the known finding F22 is about defaults outside the documented ranges)"}},
 	"C18": {ID: "C18", Level: "proof", Patterns: modelPkgs},
 	"C19": {ID: "C19", Level: "proof", Patterns: modelPkgs},
 	"C20": {ID: "C20", Level: "other", Patterns: modelPkgs,
